@@ -61,7 +61,44 @@ func (t *pipeConn) GetNextMessage() (b []byte, err error) {
 	return append(header, msgData...), nil
 }
 
+// timeoutErr is a net.Error with Timeout() == true (write deadline expiry / ETIMEDOUT).
+type timeoutErr struct{}
+
+func (timeoutErr) Error() string   { return "i/o timeout" }
+func (timeoutErr) Timeout() bool   { return true }
+func (timeoutErr) Temporary() bool { return true }
+
+var _ net.Error = timeoutErr{}
+
+// faultConn is the server end of the pipe with scripted write faults: the
+// next failN calls of Write fail with a timeout net.Error, optionally after
+// having written the first half of the packet.
+type faultConn struct {
+	net.Conn
+	mu      sync.Mutex
+	failN   int
+	partial bool
+}
+
+func (f *faultConn) Write(b []byte) (int, error) {
+	f.mu.Lock()
+	fail, partial := f.failN > 0, f.partial
+	if fail {
+		f.failN--
+	}
+	f.mu.Unlock()
+	if !fail {
+		return f.Conn.Write(b)
+	}
+	n := 0
+	if partial && len(b) > 1 {
+		n, _ = f.Conn.Write(b[:len(b)/2])
+	}
+	return n, timeoutErr{}
+}
+
 type gclient struct {
+	fc   *faultConn
 	sess *session.ClientSession
 	conn net.Conn
 	enc  *codec.PomeloPacketEncoder
@@ -81,7 +118,8 @@ func newGClient(n *node.Node, front string) *gclient {
 	cfg.Impl = pomelo.NewSessionsImpl(ns.GetRunService().GetScheduler(), n.Sessions(front))
 	c := &gclient{conn: cliEnd, enc: codec.NewPomeloPacketEncoder(), menc: message.NewMessagesEncoder(false)}
 	go c.reader()
-	c.sess = session.NewClientSession(&pipeConn{Conn: srvEnd}, cfg)
+	c.fc = &faultConn{Conn: srvEnd}
+	c.sess = session.NewClientSession(&pipeConn{Conn: c.fc}, cfg)
 	c.sess.Handle()
 	synctest.Wait()
 	return c
@@ -196,4 +234,11 @@ func (c *gclient) Close() {
 	c.mu.Unlock()
 	c.conn.Close()
 	synctest.Wait()
+}
+
+// fault arms the next n writes of the server side to fail with a timeout error.
+func (c *gclient) fault(n int, partial bool) {
+	c.fc.mu.Lock()
+	c.fc.failN, c.fc.partial = n, partial
+	c.fc.mu.Unlock()
 }
